@@ -1267,7 +1267,7 @@ class Interp:
         if isinstance(x, VList):
             return mk_const(len(x.items), 64, False)
         if isinstance(x, VStr):
-            return VInt(64, False, lin=Lin.atom(("len", ("str", x.term), 0, MAXLEN)))
+            return VInt(64, False, lin=Lin.atom(("len", ("str", nocap(x.term)), 0, MAXLEN)))
         raise Unanalysable("len of %r" % (x,))
 
     def seq_len(self, st, t):
@@ -2082,7 +2082,7 @@ class Interp:
         k = term[0]
         if k == "cstr":
             return len(term[1])
-        if k in ("trim_start", "trim_end", "trim", "trim_end_matches", "trim_start_matches", "trim_matches"):
+        if k in ("trim_start", "trim_end", "trim", "trim_end_matches", "trim_start_matches", "trim_matches", "substr"):
             return self.str_maxlen(st, term[1])
         if k == "utf8":
             src = term[1]
